@@ -114,7 +114,7 @@ def gen_history(seed, universe, cfg):
                 # the same graph printed with another target from the same context
                 t2 = rq.choice([x for x in cfg["reprint_targets"] if x != t] or [t])
                 narrow = any(x in (":float32", ":complex64") for x in r["sig"])
-                if t2 == "python" and r["func"] == "stress_literal_infinities":
+                if t2 == "python" and (r["func"] == "stress_literal_infinities" or r["func"].endswith(":i")):
                     pass  # the python target prints a literal infinity as the bare name `inf` (not claimed, see universe)
                 elif not (t2 == "cpp" and r["func"].startswith("gen:") and narrow):  # see universe.generated_request
                     acts.append(["reprint", last[1], t2, rq.choice(cfg.get("debug_levels", {}).get(t2, [0]))])
